@@ -457,6 +457,14 @@ func TestCheck(t *testing.T) {
 					shapes := map[string]bool{}
 					judge := func(x *fedorders.Exec) {
 						o := x.Obs.(obs)
+						if allDefersDisabled(q) && len(o.w.frames) == 0 && o.w.completes == 0 && len(o.w.buf) > 0 {
+							// every @defer is switched off: the operation is an ordinary one and is
+							// answered like the plain operation - one response, written without a
+							// flush; its data is still compared below
+							w2 := *o.w
+							w2.frames, w2.buf, w2.completes = []string{string(o.w.buf)}, nil, 1
+							o.w = &w2
+						}
 						var fails []fail
 						if x.Stuck {
 							fails = append(fails, fail{"the stream always terminates", "execution wedged with no request in flight", strings.Join(o.w.calls, " ")})
@@ -515,6 +523,20 @@ func TestCheck(t *testing.T) {
 			synctest.Wait()
 		}
 	})
+}
+
+// allDefersDisabled: every @defer of the operation text carries (if: false).
+func allDefersDisabled(q string) bool {
+	parts := strings.Split(q, "@defer")
+	if len(parts) < 2 {
+		return false
+	}
+	for _, p := range parts[1:] {
+		if !strings.HasPrefix(p, "(if: false)") {
+			return false
+		}
+	}
+	return true
 }
 
 // deferClass refines the fingerprint: a @defer fragment that covers (part of) an
